@@ -41,41 +41,58 @@ def _paths_avoiding(g, target, edges):
 
 
 def r1_verdict(ctx):
+    """what the driver answers once the last segment has been read, decided by constant propagation from the end of the
+    segment loop over the flag x the error count (tests on the output options are followed both ways): True exactly
+    when every segment was valid AND the error tree counts no error; False otherwise, on every way out."""
+    from ..absint import explore
     fn = ctx.func('x12n_document', 'x12n_document')
     g = ctx.cfg(fn)
-    rets = [n for n in g.nodes if n.kind == 'return']
-    trues = [n for n in rets if A.const(n.ast.value) is True]
-    if not trues:
-        raise AnalysisError('x12n_document: no `return True`')
-    valid_T = set()
-    count_zero = set()
-    for n in g.nodes:
-        if n.kind != 'test':
-            continue
-        if path_of(n.ast) == 'valid':
-            valid_T.add((n.id, 'T'))
-        if 'get_error_count()' in norm(n.ast):
-            try:
-                z = bool(A.ev(n.ast, {'errh.get_error_count()': 0}))
-                nz = [bool(A.ev(n.ast, {'errh.get_error_count()': k})) for k in (1, 2, 50)]
-            except A.NotClosed:
-                raise AnalysisError('x12n_document: error-count test not closed: %s' % norm(n.ast))
-            if all(v != z for v in nz):
-                count_zero.add((n.id, 'T' if z else 'F'))
-    for r in trues:
-        key = 'x12n_document:x12n_document return True'
-        p = _paths_avoiding(g, r, valid_T) if valid_T else [r]
-        yield Ob(key + ' only when every segment was valid', p is None, ctx.floc(fn, r.ast),
-                 '' if p is None else 'True can be returned without the `valid` flag being true')
-        p = _paths_avoiding(g, r, count_zero) if count_zero else [r]
-        yield Ob(key + ' only when the error count is zero', p is None, ctx.floc(fn, r.ast),
-                 '' if p is None else 'True can be returned although errors were reported (no test that the count is exactly 0)')
-    for r in rets:
-        if r in trues:
-            continue
-        ok = A.const(r.ast.value) is False
-        yield Ob('x12n_document:x12n_document other exits return False [%s]' % norm(r.ast), ok, ctx.floc(fn, r.ast),
-                 '' if ok else 'exit returns %s' % norm(r.ast.value) if r.ast.value is not None else 'exit returns None')
+    loops = [n for n in fn.body if isinstance(n, ast.For) and path_of(n.iter) == 'src']
+    if len(loops) != 1:
+        raise AnalysisError('x12n_document: the segment loop `for .. in src` was not found at the top level')
+    heads = [nd for nd in g.nodes if nd.kind == 'for' and nd.stmt is loops[0]]
+    if not heads:
+        raise AnalysisError('x12n_document: loop head not found in the CFG')
+    after = [s_ for s_, l in heads[0].succ if l == 'done']
+    if not after:
+        raise AnalysisError('x12n_document: the loop has no normal exit')
+    bad_valid, bad_count, bad_other = [], [], []
+    n_ret = 0
+    for v in (True, False):
+        for k in (0, 1, 2, 50):
+            outs = []
+
+            def on_node(nd, env):
+                if nd.kind == 'return':
+                    try:
+                        outs.append((nd, A.ev(nd.ast.value, env, funcs) if nd.ast.value is not None else None))
+                    except A.NotClosed:
+                        outs.append((nd, 'undetermined'))
+            funcs = {'errh.get_error_count': lambda k=k: k}
+            explore(g, {'valid': v}, funcs=funcs, on_node=on_node, start=after[0], unknown='both')
+            if not outs:
+                raise AnalysisError('x12n_document: no return is reached after the segment loop')
+            n_ret = max(n_ret, len(outs))
+            for nd, val in outs:
+                want = v and k == 0
+                if val is want:
+                    continue
+                what = 'valid=%s, %d error(s) counted: answers %r at `%s`' % (v, k, val, norm(nd.ast, 50))
+                if val is True and not v:
+                    bad_valid.append(what)
+                elif val is True and k:
+                    bad_count.append(what)
+                else:
+                    bad_other.append(what)
+    key = 'x12n_document:x12n_document return True'
+    yield Ob(key + ' only when every segment was valid', not bad_valid, ctx.floc(fn), '' if not bad_valid else bad_valid[0] + ': True is returned without the `valid` flag being true')
+    yield Ob(key + ' only when the error count is zero', not bad_count, ctx.floc(fn),
+             '' if not bad_count else bad_count[0] + ': True is returned although errors were reported (no test that the count is exactly 0)')
+    yield Ob('x12n_document:x12n_document other exits return False', not bad_other, ctx.floc(fn), '' if not bad_other else bad_other[0])
+    # the refusal before the loop (not an X12 file) answers False
+    early = [n for n in ast.walk(fn) if isinstance(n, ast.Return) and n.lineno < loops[0].lineno]
+    ok = all(A.const(r.value) is False for r in early)
+    yield Ob('x12n_document:x12n_document a source that is not X12 is answered False', ok, ctx.floc(fn), '' if ok else 'an early exit returns %s' % [norm(r) for r in early])
     # stores to valid
     stores = []
     for n in ast.walk(fn):
